@@ -309,3 +309,80 @@ func loopAfterLabel(p *core.Prog, fn *ssa.Function, l *core.Loop, label string) 
 	}
 	return true
 }
+
+// c06CommentEOF: an unterminated comment runs to the end of the input (CSS Syntax §4.3.2), whatever the nesting.
+func c06CommentEOF(c *core.Check) {
+	p := c.Prog
+	r := c.Rule("R8", "an unterminated comment consumes the rest of the input: in consumeValueList, on the path where `*/` is not found, the cursor is set to the end of the source before the function returns — otherwise the enclosing blocks go on tokenizing the text of the comment", 1)
+	fn := p.Method("css/parser", "tokenizer", "consumeValueList")
+	if fn == nil {
+		r.Anchor("css/parser.(*tokenizer).consumeValueList")
+		return
+	}
+	n := 0
+	core.Instrs(fn, func(in ssa.Instruction) {
+		cmp, ok := in.(*ssa.BinOp)
+		if !ok || (cmp.Op != token.EQL && cmp.Op != token.NEQ && cmp.Op != token.LSS) {
+			return
+		}
+		call, ok := cmp.X.(*ssa.Call)
+		if !ok || call.Call.StaticCallee() == nil || call.Call.StaticCallee().Name() != "Index" || len(call.Call.Args) != 2 {
+			return
+		}
+		if s, ok := constBytesOf(call.Call.Args[1]); !ok || s != "*/" {
+			return
+		}
+		k, isK := core.ConstInt(cmp.Y)
+		if !isK || !(k == -1 || (cmp.Op == token.LSS && k == 0)) {
+			return
+		}
+		n++
+		// the branch taken when the terminator is missing
+		var ifi *ssa.If
+		if refs := cmp.Referrers(); refs != nil {
+			for _, ref := range *refs {
+				if x, ok := ref.(*ssa.If); ok {
+					ifi = x
+				}
+			}
+		}
+		if ifi == nil {
+			r.Unknown("css/parser.consumeValueList | unterminated comment", p.Pos(cmp.Pos()), "the test of the search result does not branch")
+			return
+		}
+		missing := ifi.Block().Succs[0]
+		if cmp.Op == token.NEQ {
+			missing = ifi.Block().Succs[1]
+		}
+		// on every path from there to a return, tk.pos = len(tk.src)
+		isEnd := func(in ssa.Instruction) bool {
+			st, ok := in.(*ssa.Store)
+			if !ok {
+				return false
+			}
+			fa, ok := st.Addr.(*ssa.FieldAddr)
+			if !ok || core.FieldName(fa) != "pos" {
+				return false
+			}
+			lc, ok := st.Val.(*ssa.Call)
+			if !ok {
+				return false
+			}
+			b, isB := lc.Call.Value.(*ssa.Builtin)
+			return isB && b.Name() == "len" && core.IsFieldNamed(lc.Call.Args[0], "src")
+		}
+		isRet := func(in ssa.Instruction) bool { _, ok := in.(*ssa.Return); return ok }
+		r.Cond(core.PassFrom(missing, isEnd, isRet), "css/parser.consumeValueList | unterminated comment", p.Pos(cmp.Pos()), "the cursor is moved to the end of the source before returning", "the function returns with the cursor inside the comment: `a { /* foo` yields the tokens `*` and `foo` after the block")
+	})
+	if n == 0 {
+		r.Anchor("consumeValueList: search for the comment terminator")
+	}
+}
+
+// constBytesOf: the string of a []byte("…") conversion or of a string constant.
+func constBytesOf(v ssa.Value) (string, bool) {
+	if cv, ok := v.(*ssa.Convert); ok {
+		return core.ConstStr(cv.X)
+	}
+	return core.ConstStr(v)
+}
